@@ -110,10 +110,47 @@ DIGITS = z3.Plus(z3.Range("0", "9"))
 
 
 class Interp:
-    def __init__(self, consts):
+    def __init__(self, consts, funcs=None, methods=None):
         self.consts = consts
+        self.funcs = funcs or {}  # module-level helper functions of the codec's module: name -> FunctionDef
+        self.methods = methods or {}  # other methods of the class: name -> (FunctionDef, is_static)
+        self.depth = 0
         self.reprs = {}  # id of repr-string term -> FloatVal
         self.nodes = set()
+
+    def apply(self, defn, args, kw, bound=None):
+        """Inline a helper function of the code under analysis (bounded call depth)."""
+        if self.depth >= 6:
+            raise Unsupported("translator: helper call depth 6 exceeded")
+        a = defn.args
+        if a.vararg or a.kwarg or a.kwonlyargs or a.posonlyargs:
+            raise Unsupported(f"translator: signature of helper {defn.name}")
+        names = [x.arg for x in a.args]
+        env = {}
+        pos = list(args)
+        if bound is not None:
+            pos = [bound] + pos
+        if len(pos) > len(names):
+            raise Unsupported(f"translator: too many arguments for helper {defn.name}")
+        for nme, v in zip(names, pos):
+            env[nme] = v
+        for k, v in kw.items():
+            if k not in names or k in env:
+                raise Unsupported(f"translator: keyword {k} for helper {defn.name}")
+            env[k] = v
+        for nme, d in zip(reversed(names), reversed(a.defaults)):
+            if nme not in env:
+                env[nme] = self.ev(d, {})
+        if set(names) - set(env):
+            raise Unsupported(f"translator: missing arguments for helper {defn.name}")
+        self.depth += 1
+        try:
+            self.run(defn.body, env)
+        except ReturnEx as r:
+            return r.v
+        finally:
+            self.depth -= 1
+        return None
 
     # ---- abstract float <-> str
     def float_to_str(self, f):
@@ -151,7 +188,9 @@ class Interp:
     def e_Name(self, n, env):
         if n.id in env:
             return env[n.id]
-        if n.id in ("len", "str", "float", "int", "datetime", "timezone", "Exception", "ValueError", "TypeError"):
+        if n.id in self.funcs:
+            return ("function", self.funcs[n.id], None)
+        if n.id in ("len", "str", "float", "int", "datetime", "timezone", "Exception", "ValueError", "TypeError", "range", "chain", "list", "tuple"):
             return ("builtin", n.id)
         raise Unsupported(f"translator: unknown name {n.id} at line {n.lineno}")
 
@@ -162,6 +201,9 @@ class Interp:
                 return base.__dict__[n.attr]
             if n.attr in self.consts:
                 return self.consts[n.attr]
+            if n.attr in self.methods:
+                defn, static = self.methods[n.attr]
+                return ("function", defn, None if static else base)
             raise Unsupported(f"translator: attribute {n.attr} at line {n.lineno}")
         if base == ("builtin", "timezone") and n.attr == "utc":
             return "UTC"
@@ -370,6 +412,20 @@ class Interp:
             if isinstance(args[0], AssocDict):
                 return len(args[0].pairs)
             raise Unsupported("translator: len() of symbolic value")
+        if isinstance(f, tuple) and f[0] == "function":
+            return self.apply(f[1], args, kw, bound=f[2])
+        if f == ("builtin", "range") and args and all(type(a) is int for a in args) and not kw:
+            if len(range(*args)) > 64:
+                raise Unsupported("translator: range longer than 64")
+            return list(range(*args))
+        if f == ("builtin", "chain") and not kw:
+            out = []
+            for a in args:
+                out.extend(self.iterate(a))
+            return out
+        if f in (("builtin", "list"), ("builtin", "tuple")) and len(args) <= 1 and not kw:
+            items = self.iterate(args[0]) if args else []
+            return list(items) if f[1] == "list" else tuple(items)
         if f == ("builtin", "str"):
             return self.to_str(args[0])
         if f == ("builtin", "float"):
@@ -383,6 +439,11 @@ class Interp:
             raise Unsupported("translator: int() of symbolic value")
         if isinstance(f, tuple) and f[0] == "method":
             _, base, name = f
+            if base == ("builtin", "chain") and name == "from_iterable" and len(args) == 1 and not kw:
+                out = []
+                for a in self.iterate(args[0]):
+                    out.extend(self.iterate(a))
+                return out
             if isinstance(base, AssocDict) and name == "items":
                 return list(base.pairs)
             if isinstance(base, AssocDict) and name == "keys":
@@ -534,6 +595,24 @@ class Interp:
 def load(fn):
     src = textwrap.dedent(inspect.getsource(fn))
     return ast.parse(src).body[0]
+
+
+def load_helpers(cls, exclude=()):
+    """Module-level functions of cls's module and the other plain methods of cls, as ASTs, so that
+    calls from the functions under analysis into them are inlined."""
+    mod = inspect.getmodule(cls)
+    tree = ast.parse(inspect.getsource(mod))
+    funcs = {n.name: n for n in tree.body if isinstance(n, ast.FunctionDef)}
+    methods = {}
+    for n in tree.body:
+        if isinstance(n, ast.ClassDef) and n.name == cls.__name__:
+            for m in n.body:
+                if isinstance(m, ast.FunctionDef) and m.name not in exclude:
+                    decos = [d.id for d in m.decorator_list if isinstance(d, ast.Name)]
+                    if any(d in ("property", "classmethod") for d in decos) or any(not isinstance(d, ast.Name) for d in m.decorator_list):
+                        continue
+                    methods[m.name] = (m, "staticmethod" in decos)
+    return funcs, methods
 
 
 def call(defn, interp, **args):
